@@ -254,7 +254,7 @@ func runC09(tier string, seed uint64) {
 				s.h = newServer(s.st.Backend, gofakes3.WithHostBucket(true))
 			}
 			emit("c09", "NOMODEL")
-			f := &fuzzCtx{rng: rng, buckets: []string{singleBucketName, "bkq"}, keys: []string{"k", "d/e", "gone", "marked"}}
+			f := &fuzzCtx{rng: rng, buckets: []string{singleBucketName, "bkq"}, keys: []string{"k", "d/e", "gone", "marked", "kv"}}
 			hostHdr := func(b string) string {
 				if cfg.host == "host" {
 					return b + ".s3.example.com"
@@ -272,6 +272,9 @@ func runC09(tier string, seed uint64) {
 				if kind == "mem" && !cfg.o.NoVer {
 					s.SetVersioning(singleBucketName, true)
 					s.Put(singleBucketName, "k", []byte("second version"), nil)
+					s.Put(singleBucketName, "k", []byte("third version"), nil)
+					s.Put(singleBucketName, "kv", []byte("born versioned, 1"), nil)
+					s.Put(singleBucketName, "kv", []byte("born versioned, 2"), nil)
 					s.Put(singleBucketName, "marked", []byte("to be marked"), nil)
 					s.Delete(singleBucketName, "marked")
 					f.vids = append(f.vids, s.vids...)
@@ -327,9 +330,12 @@ func runC09(tier string, seed uint64) {
 			corpus = append(corpus,
 				Req{Method: "PUT", Path: "/" + singleBucketName + "/neg", Body: []byte("x"), Header: [][2]string{{"X-Amz-Content-Sha256", "STREAMING-AWS4-HMAC-SHA256-PAYLOAD"}, {"X-Amz-Decoded-Content-Length", "-1"}}},
 				Req{Method: "PUT", Path: "/"}, Req{Method: "DELETE", Path: "/"}, Req{Method: "POST", Path: "/?delete"})
-			for _, v := range f.vids { // delete current versions while older ones remain, then read
-				corpus = append(corpus, Req{Method: "DELETE", Path: "/" + singleBucketName + "/k?versionId=" + queryEscape(v)},
-					Req{Method: "GET", Path: "/" + singleBucketName + "/k"}, Req{Method: "HEAD", Path: "/" + singleBucketName + "/k"}, Req{Method: "GET", Path: "/" + singleBucketName})
+			for _, vk := range []string{"k", "kv"} { // delete versions oldest first until none is left, reading in between
+				for _, v := range f.vids {
+					corpus = append(corpus, Req{Method: "DELETE", Path: "/" + singleBucketName + "/" + vk + "?versionId=" + queryEscape(v)},
+						Req{Method: "GET", Path: "/" + singleBucketName + "/" + vk}, Req{Method: "HEAD", Path: "/" + singleBucketName + "/" + vk}, Req{Method: "GET", Path: "/" + singleBucketName},
+						Req{Method: "GET", Path: "/" + singleBucketName + "?versions"})
+				}
 			}
 			if cfg.host != "" {
 				corpus = nil
